@@ -38,6 +38,15 @@ def acc_push(ctx, acc, frm):
     return None
 
 
+@op('acc_push_bad', mutates=('acc',))
+def acc_push_bad(ctx, acc, what='str'):
+    """A push that cannot succeed (the producer handed over something that
+    is not a frame): it raises, and must count for nothing."""
+    a = val(ctx, acc)
+    a.push({'str': 'not a frame', 'none': None, 'obj': object()}[what])
+    return None
+
+
 @op('acc_read')
 def acc_read(ctx, acc, what='both'):
     a = val(ctx, acc)
